@@ -323,6 +323,37 @@ func genToken() {
 		}
 	}
 	lf.def("parseIntBits", "List (String × String × Nat)", "["+joinComma(bits)+"]", dtk+": (method, token type, bitSize argument of strconv.ParseInt)")
+
+	// ---- utils.go: decodeInt32 / decodeInt64 – the length a stored integer token value must have
+	// (`if len(data) != K { return 0, <error> }` as the first statement; 0 = no such guard, then
+	// binary.LittleEndian.UintNN panics on a shorter slice and ignores the bytes of a longer one)
+	const utl = "pseudonymization/utils.go"
+	uenv := newConstEnv(utl)
+	var checks []string
+	for _, name := range []string{"decodeInt32", "decodeInt64"} {
+		fd := funcDecl(utl, "", name)
+		if fd == nil {
+			continue
+		}
+		k := uint64(0)
+		if len(fd.Body.List) > 0 {
+			if ifs, ok := fd.Body.List[0].(*ast.IfStmt); ok && ifs.Init == nil && ifs.Else == nil && len(ifs.Body.List) == 1 {
+				be, isBin := ifs.Cond.(*ast.BinaryExpr)
+				_, isRet := ifs.Body.List[0].(*ast.ReturnStmt)
+				if isBin && isRet && be.Op == token.NEQ {
+					if c, ok := be.X.(*ast.CallExpr); ok && len(c.Args) == 1 {
+						fn, ok1 := c.Fun.(*ast.Ident)
+						arg, ok2 := c.Args[0].(*ast.Ident)
+						if ok1 && ok2 && fn.Name == "len" && arg.Name == "data" && uenv.eval(be.Y) != nil {
+							k = uenv.intOf(be.Y, utl)
+						}
+					}
+				}
+			}
+		}
+		checks = append(checks, fmt.Sprintf("(%q, %d)", name, k))
+	}
+	lf.def("decodeIntLengthChecks", "List (String × Nat)", "["+joinComma(checks)+"]", utl+": K of the leading `if len(data) != K { return 0, err }` of decodeInt32 / decodeInt64 (0 = no length check)")
 }
 
 func joinComma(xs []string) string {
